@@ -2,8 +2,8 @@
    these definitions of /repo; tools/srcfacts.py regenerates their normal-form digests on every run (coq/Gen/Src_*.v).
    Statements only. *)
 From Coq Require Import List String.
-From ME Require Import Model.SrcExpected Gen.Src_retry Gen.Src_common Gen.Src_map Gen.Src_flat_map Gen.Src_fbool Gen.Src_fzip Gen.Src_fbase Gen.Src_poll Gen.Src_throttle
-  Proofs.Src_ok_retry Proofs.Src_ok_common Proofs.Src_ok_map Proofs.Src_ok_flat_map Proofs.Src_ok_fbool Proofs.Src_ok_fzip Proofs.Src_ok_fbase Proofs.Src_ok_poll Proofs.Src_ok_throttle.
+From ME Require Import Model.SrcExpected Gen.Src_retry Gen.Src_common Gen.Src_map Gen.Src_flat_map Gen.Src_fbool Gen.Src_fzip Gen.Src_fbase Gen.Src_poll Gen.Src_throttle Gen.Src_timeout Gen.Src_cos Gen.Src_fnocancel Gen.Src_fmap Gen.Src_fsequence Gen.Src_fapply
+  Proofs.Src_ok_retry Proofs.Src_ok_common Proofs.Src_ok_map Proofs.Src_ok_flat_map Proofs.Src_ok_fbool Proofs.Src_ok_fzip Proofs.Src_ok_fbase Proofs.Src_ok_poll Proofs.Src_ok_throttle Proofs.Src_ok_timeout Proofs.Src_ok_cos Proofs.Src_ok_fnocancel Proofs.Src_ok_fmap Proofs.Src_ok_fsequence Proofs.Src_ok_fapply.
 
 (* more_executors/_impl/retry.py *)
 Theorem c06_source_retry : Src_retry.facts = expected_retry.
@@ -32,6 +32,24 @@ Proof. exact src_poll_ok. Qed.
 (* more_executors/_impl/throttle.py *)
 Theorem c06_source_throttle : Src_throttle.facts = expected_throttle.
 Proof. exact src_throttle_ok. Qed.
+(* more_executors/_impl/timeout.py *)
+Theorem c06_source_timeout : Src_timeout.facts = expected_timeout.
+Proof. exact src_timeout_ok. Qed.
+(* more_executors/_impl/cancel_on_shutdown.py *)
+Theorem c06_source_cos : Src_cos.facts = expected_cos.
+Proof. exact src_cos_ok. Qed.
+(* more_executors/_impl/futures/nocancel.py *)
+Theorem c06_source_fnocancel : Src_fnocancel.facts = expected_fnocancel.
+Proof. exact src_fnocancel_ok. Qed.
+(* more_executors/_impl/futures/map.py *)
+Theorem c06_source_fmap : Src_fmap.facts = expected_fmap.
+Proof. exact src_fmap_ok. Qed.
+(* more_executors/_impl/futures/sequence.py *)
+Theorem c06_source_fsequence : Src_fsequence.facts = expected_fsequence.
+Proof. exact src_fsequence_ok. Qed.
+(* more_executors/_impl/futures/apply.py *)
+Theorem c06_source_fapply : Src_fapply.facts = expected_fapply.
+Proof. exact src_fapply_ok. Qed.
 
 Print Assumptions c06_source_retry.
 Print Assumptions c06_source_common.
@@ -42,3 +60,9 @@ Print Assumptions c06_source_fzip.
 Print Assumptions c06_source_fbase.
 Print Assumptions c06_source_poll.
 Print Assumptions c06_source_throttle.
+Print Assumptions c06_source_timeout.
+Print Assumptions c06_source_cos.
+Print Assumptions c06_source_fnocancel.
+Print Assumptions c06_source_fmap.
+Print Assumptions c06_source_fsequence.
+Print Assumptions c06_source_fapply.
